@@ -13,6 +13,7 @@ def sig(tr, clause, line):
 def run(tier):
     chk = F.Check("C09", tier)
     WC.gpo_models(chk, tier)
+    WC.gpo_real_pairs(chk, tier)
     trs = S.pmap(W.run_wrap, WC.gpo_cfgs(tier, 900000))
     chk.validate("Trace_Wrap.tla", "Trace_Wrap.cfg", trs, "gpo", own=["gpo."], sigfn=sig, nontrivial=lambda t: t["learners"] >= 2)
     t = trs[0]
